@@ -9,7 +9,13 @@ COMMON_NOTE = ('Trusted: Coq kernel; extraction (ExtrOcamlBasic only) + OCaml; o
 CHECKS['C01'] = dict(
     text='T1 C01_sound (Coq, by induction over traces of any length): every trace accepted by the extracted local acceptor '
          'satisfies customer conservation (ids 1..N each in exactly one place, counters = true populations, arrivals = nodes + exit, '
-         'exit is permanent). K1: every observed run of the real engine (all feature regions) is accepted after every event.',
+         'exit is permanent). K1: every observed run of the real engine (all feature regions) is accepted after every event. '
+         'T2 event_step_conserves / run_many_conserves (Coq, Hoare-style over the state-and-error monad, the unblocking cascade by induction on fuel): '
+         'the hand-written ENGINE MODEL coq/Engine (stage 1: ordinary nodes, capacities and blocking, non-pre-emptive priorities, all disciplines, batching, '
+         'baulking, class-change matrices, transition matrices) preserves the conservation invariant WFx for every configuration, every state satisfying it and '
+         'every oracle of draws (= all seeds, distributions and tie-breaks), any number of events; WFx_means spells the invariant out in the words of the property. '
+         'K2: on every in-scope observed run the model, started from the IMPLEMENTATION\'s own previous snapshot with the draws it consumed, reproduces the next '
+         'snapshot and records exactly, and the initial snapshot satisfies WFx (wfx_b_sound).',
     note=COMMON_NOTE,
     technique='Coq theorem about an executable acceptor + conformance of real traces (runtime refinement check)')
 
